@@ -160,7 +160,9 @@ def run_property(prop, tier, repo, seed, only=None):
                                         (" | path: " + " -> ".join(v["path"])) if v.get("path") else ""))
         lines.append("VIOLATION property=%s replay=%s" % (prop, rp))
 
-    if not only:
+    if not only and os.path.realpath(repo) != "/repo":
+        print("note: --repo %s is not /repo: evidence file not rewritten" % repo)
+    if not only and os.path.realpath(repo) == "/repo":
         desc = getattr(mod, "DESCRIPTION", "")
         undecided = getattr(mod, "NOT_DECIDED", "")
         cov = dict(
